@@ -1,0 +1,57 @@
+//! Verification hook H1: read/write access to the machine state of a [`RunEnvironment`].
+//! Only compiled with `--cfg lace_verif`.
+
+use super::{RunEnvironment, RunFlag, MEMORY_MAX};
+
+impl RunEnvironment {
+    pub fn verif_regs(&self) -> [u16; 8] {
+        self.state.reg
+    }
+    pub fn verif_set_regs(&mut self, regs: [u16; 8]) {
+        self.state.reg = regs;
+    }
+
+    pub fn verif_pc(&self) -> u16 {
+        self.state.pc
+    }
+    pub fn verif_set_pc(&mut self, pc: u16) {
+        self.state.pc = pc;
+    }
+
+    /// Condition code as `nzp` bits (`0b000` if none is set).
+    pub fn verif_cc(&self) -> u8 {
+        self.state.flag as u8
+    }
+    /// Any value other than `0b100`, `0b010`, `0b001` clears the condition code.
+    pub fn verif_set_cc(&mut self, cc: u8) {
+        self.state.flag = match cc {
+            0b100 => RunFlag::N,
+            0b010 => RunFlag::Z,
+            0b001 => RunFlag::P,
+            _ => RunFlag::Uninit,
+        };
+    }
+
+    pub fn verif_orig(&self) -> u16 {
+        self.state.orig
+    }
+    pub fn verif_set_orig(&mut self, orig: u16) {
+        self.state.orig = orig;
+    }
+
+    pub fn verif_mem(&self) -> &[u16; MEMORY_MAX] {
+        &self.state.mem
+    }
+    pub fn verif_mem_mut(&mut self) -> &mut [u16; MEMORY_MAX] {
+        &mut self.state.mem
+    }
+
+    /// Execute one instruction word on the current state (PC is not incremented first).
+    pub fn verif_execute(&mut self, instr: u16) {
+        self.state.execute(instr);
+    }
+
+    pub fn verif_has_debugger(&self) -> bool {
+        self.debugger.is_some()
+    }
+}
